@@ -10,6 +10,8 @@ import (
 	"bytes"
 	"encoding/base64"
 	"fmt"
+	"math"
+	"math/big"
 	"strings"
 	"testing"
 	"time"
@@ -252,6 +254,45 @@ func TestC07(t *testing.T) {
 			}
 		}
 	}
+	// 6b. well-formed plaintexts with every "interesting" issue time: now +- 2^k seconds, the
+	// distances at which second->nanosecond arithmetic wraps (multiples of 2^64 ns and 2^63 ns),
+	// the extremes of int64 - accepted exactly when 0 <= now - issued <= lifetime
+	for fi, f := range facs {
+		L := int64(lifetimes[fi] / time.Second)
+		tsSet := map[int64]bool{0: true, 1: true, -1: true, math.MaxInt64: true, math.MinInt64: true, math.MaxInt64 - 1: true, math.MinInt64 + 1: true, math.MaxInt32: true, math.MaxUint32: true}
+		for k := 0; k < 63; k++ {
+			for _, d := range []int64{-1, 0, 1} {
+				tsSet[nowUnix+(int64(1)<<k)+d] = true
+				tsSet[nowUnix-(int64(1)<<k)+d] = true
+			}
+		}
+		wrap := []int64{18446744073, 18446744074, 9223372036, 9223372037, 2 * 18446744073, 2*18446744073 + 1, 3 * 18446744073, 4294967296, 4294967, 4295}
+		for _, wd := range wrap {
+			for _, d := range []int64{-L - 1, -L, -L + 1, -2, -1, 0, 1, 2, L - 1, L, L + 1, L / 2, -L / 2} {
+				tsSet[nowUnix+wd+d] = true
+				tsSet[nowUnix-wd+d] = true
+			}
+		}
+		for ts := range tsSet {
+			age := new(big.Int).Sub(big.NewInt(nowUnix), big.NewInt(ts))
+			if age.Cmp(big.NewInt(L)) == 0 {
+				continue // the exact end of the lifetime may go either way
+			}
+			want := age.Sign() >= 0 && age.Cmp(big.NewInt(L)) < 0
+			pt := fmt.Sprintf("u:true:%d", ts)
+			_, _, nonce, enc := f.sealToken(pt)
+			text := base64.URLEncoding.EncodeToString(nonce) + ":" + base64.URLEncoding.EncodeToString(enc)
+			st, _, user, adm := f.Check(text)
+			ev.Add("evaluations", 1)
+			if (st == 200) != want {
+				ev.Violation(fmt.Sprintf("issue-time-verdict:accepted=%v", st == 200), fmt.Sprintf("factory %d (lifetime %d s) at time %d: token issued at %d (age %s s) status %d user %q admin %v, want accepted=%v", fi, L, nowUnix, ts, age, st, user, adm, want), map[string]any{"plaintext": pt, "now": nowUnix})
+			}
+			if st == 200 && (user != "u" || !adm) {
+				ev.Violation("issue-time-identity", fmt.Sprintf("token %q accepted as (%s,%v)", pt, user, adm), map[string]any{"plaintext": pt})
+			}
+		}
+		ev.Distinct(fmt.Sprintf("issue-times|%d|%d", fi, len(tsSet)))
+	}
 	// 7. nonce uniqueness over many issues (statistical clause, see DESIGN.md)
 	n := 20000
 	if ev.Thorough() {
@@ -270,7 +311,7 @@ func TestC07(t *testing.T) {
 	ev.Add("evaluations", n)
 	ev.Set("nonces_checked_distinct", len(seen))
 	ev.Sample(map[string]any{"issued": toks[0].text, "user": toks[0].user, "presentations": "bit flips, char substitutions/deletions/insertions, prefixes/suffixes, splices, chosen plaintexts, ages"})
-	ev.Rule = fmt.Sprintf("%d issued tokens (3 user names x admin x 3 issue times x 2 factory instances); for %d of them every single-bit flip of nonce||ciphertext, every substitution of every character by each of %d characters, every deletion/insertion, every prefix/suffix; all %d x %d splices; 18 chosen plaintexts per factory; 7 ages per token around the lifetime; distinct = distinct accepted presentations + distinct (age,status) + chosen plaintext outcomes",
+	ev.Rule = fmt.Sprintf("%d issued tokens (3 user names x admin x 3 issue times x 2 factory instances); for %d of them every single-bit flip of nonce||ciphertext, every substitution of every character by each of %d characters, every deletion/insertion, every prefix/suffix; all %d x %d splices; 18 chosen plaintexts per factory; ~700 well-formed plaintexts per factory with issue times now +- 2^k s (k<63), +- multiples of 2^64 ns / 2^63 ns / 2^32 s +- lifetime, int64 extremes; 7 ages per token around the lifetime; distinct = distinct accepted presentations + distinct (age,status) + chosen plaintext outcomes",
 		len(toks), len(sel), len(alpha), len(toks), len(toks)-1)
 	ev.Assumptions = []string{"the oracle compares decoded content (the base64 text layer is not canonical and deliberately not part of the claim)", "nonce uniqueness is a statistical clause: 96-bit random nonces cannot be enumerated, the check catches constant / counter-reset / truncated nonces only",
 		"user names are taken from the schema's grammar (no ':')"}
